@@ -241,7 +241,9 @@ class FeArray(np.ndarray):
         # numpy calls a dispatched reduction on the stripped array, so the method wrapper never
         # sees it and the axis has to be read here instead
         if func in _REDUCERS:
-            axis = kwargs.get("axis", args[1] if len(args) > 1 else None)
+            # np.linalg.norm(x, ord, axis): its second positional argument is `ord`
+            pos = 2 if func is np.linalg.norm else 1
+            axis = kwargs.get("axis", args[pos] if len(args) > pos else None)
             if not _KeepsFeAxes(axis, np.ndim(args[0])):
                 feShape = ()
         args = tuple(_Base(arg) for arg in args)
